@@ -99,6 +99,10 @@ def run(ctx):  # noqa: C901, PLR0912, PLR0915
            'UIndexDefinition.mk_keys stores a key only on the false edge of `k in self` and raises KeyError otherwise',
            fi=ui, witness=[g.facts_at(s) for s in stores])
 
+    from . import common
+    # an object enters the table as a copy that shares nothing with the one the application keeps: the indexed attributes of a
+    # resident object change only through update_object (R2), never through a value shared with a copy
+    common.copies_are_deep(ctx, 'C11.R2')
     # ------------------------------------------------------------------ R2
     n_upd = 0
     for fi in repo.funcs.values():
@@ -164,6 +168,27 @@ def run(ctx):  # noqa: C901, PLR0912, PLR0915
         else:
             ctx.ob('C11.R3', f'{m} delegates', any(x and x.startswith('remove_object') for x in names),
                    f'{m} delegates to another removal method', fi=fi)
+    # an index leaves an object out only for the key None (and only when told to): 0, '' or an empty tuple are keys like any
+    # other - an object that is left out is not found through this lookup although it is in the table
+    n_skip = 0
+    for q_, fi_ in sorted(repo.funcs.items()):
+        if not (q_.startswith('sdc11073.multikey.') and fi_.name == 'mk_keys'):
+            continue
+        g_ = cfg_of(fi_)
+        kvars = {t.id for x in walk_no_nested(fi_.node) if isinstance(x, ast.Assign) and isinstance(x.value, ast.Call) and
+                 call_name(x.value) == '_get_key_func' for t in x.targets if isinstance(t, ast.Name)}
+        for r in g_.nodes:
+            if r.kind == 'return' and (r.stmt.value is None or
+                                       (isinstance(r.stmt.value, ast.Constant) and r.stmt.value.value is None)):
+                n_skip += 1
+                facts = list(g_.facts_at(r).both()) if hasattr(g_.facts_at(r), 'both') else list(g_.facts_at(r))
+                ok = any(p is True and t in {f'{k} is None' for k in kvars} for t, p in facts) and \
+                    any(p is False and t.endswith('_index_none_values') for t, p in facts)
+                ctx.ob('C11.R3', f'{fi_.cls.name}.mk_keys leaves out only None', ok,
+                       f'{fi_.cls.name}.mk_keys skips an object only when its key is None and None is not indexed' if ok else
+                       f'{fi_.cls.name}.mk_keys returns without storing under {facts}: an object whose key is merely falsy (0, '
+                       f'"", an empty list) is left out of the index and cannot be found through it', fi=fi_, node=r.stmt)
+    ctx.floor('C11.R3', n_skip, 3, 'skip exits of mk_keys')
     # a multi-valued index reports exactly the keys it stored under (one per stored entry): the back references that
     # _rm_indices removes later are built from the returned list
     for q_, fi_ in sorted(repo.funcs.items()):
